@@ -140,3 +140,76 @@ pub(crate) fn c01_private_emit_when_contract() {
     }
     kani::cover!(true);
 }
+
+/// The `emit!(.., evt: e, ..)` entry point, one shape of the call (which property layers exist and whether a
+/// template override is given are CONCRETE per harness: a symbolic `Option<&Template>` or symbolic layers cost CBMC
+/// more than 5 minutes; values, extent, clock reading, both filters' answers and the presence of `when` are symbolic):
+/// the effective filter (the call-site `when` if given, else the runtime's) is consulted exactly ONCE, on the fully
+/// built event - `expected_k` under the shared key "k", the ambient-only key visible, the expected template, the
+/// event's own extent if it has one and otherwise the clock's reading - and the emitter receives exactly that
+/// event, once, iff the filter accepted. The other filter is never consulted; the ambient context is read once and
+/// the clock only when the event has no extent of its own.
+fn private_emit_event_shape<CP: Props, EP: Props>(call_props: CP, evt_props: EP, expected_k: u64, v_amb_k: u64, override_tpl: bool) {
+    let v_amb: u64 = kani::any();
+    let rt_answer: bool = kani::any();
+    let when_answer: bool = kani::any();
+    let has_when: bool = kani::any();
+    let own_extent = any_extent();
+    let now = any_opt_ts();
+    let rt = emit::runtime::Runtime::build(
+        TplEmitter::new(),
+        TplFilter::new(rt_answer),
+        OracleCtxt::new(v_amb_k, v_amb),
+        OracleClock { calls: core::cell::Cell::new(0), now },
+        emit::Empty,
+    );
+    let when = TplFilter::new(when_answer);
+    let tpl_override = Template::literal(TPL_U);
+    let evt = Event::new(Path::new_raw("m"), Template::literal(TPL_T), own_extent.clone(), &evt_props);
+
+    emit::__private::__private_emit_event(
+        &rt,
+        if has_when { Some(&when) } else { None },
+        &evt,
+        if override_tpl { Some(&tpl_override) } else { None },
+        &call_props,
+    );
+
+    let (s, e, r) = expect_extent(&own_extent, now);
+    let expected = Seen { k: Some(expected_k), amb: Some(v_amb), start: s, end: e, is_range: r, mdl_is_m: true };
+    let expected_tpl = if override_tpl { 2 } else { 1 };
+    let effective = if has_when { when_answer } else { rt_answer };
+    let (used, unused) = if has_when { (&when, rt.filter()) } else { (rt.filter(), &when) };
+    assert!(used.inner.calls.get() == 1);
+    assert!(unused.inner.calls.get() == 0);
+    assert!(used.inner.seen.get() == expected);
+    assert!(used.tpl.get() == expected_tpl);
+    assert!(rt.emitter().inner.calls.get() == if effective { 1 } else { 0 });
+    if effective {
+        assert!(rt.emitter().inner.seen.get() == expected);
+        assert!(rt.emitter().tpl.get() == expected_tpl);
+    }
+    assert!(rt.ctxt().with_current_calls.get() == 1);
+    assert!(rt.clock().calls.get() == if own_extent.is_none() { 1 } else { 0 });
+}
+
+/// `emit!(evt: e, "u", k: v_call)`: the macro invocation's property wins over the event's own and the ambient one
+/// under the same key, and the template override is in place when the filter looks.
+#[cfg_attr(kani, kani::proof)]
+#[cfg_attr(kani, kani::unwind(6))]
+pub(crate) fn c01_private_emit_event_when_contract() {
+    let v_call: u64 = kani::any();
+    let v_evt: u64 = kani::any();
+    private_emit_event_shape([("k", v_call)], [("k", v_evt)], v_call, kani::any(), true);
+    kani::cover!(true);
+}
+
+/// `emit!(evt: e)` without properties or template of its own: the event's own property wins over the ambient one
+/// under the same key and the event keeps its template.
+#[cfg_attr(kani, kani::proof)]
+#[cfg_attr(kani, kani::unwind(6))]
+pub(crate) fn c01_private_emit_event_own_props_contract() {
+    let v_evt: u64 = kani::any();
+    private_emit_event_shape(emit::Empty, [("k", v_evt)], v_evt, kani::any(), false);
+    kani::cover!(true);
+}
